@@ -96,7 +96,8 @@ func (World) Generate(r *engine.RNG, tier string) *engine.Script {
 			}
 			zones := []int{0, 0, 3600, -3600, 19800, -43200, 50400, 45900, -34200}
 			s.Ops = append(s.Ops, engine.Op{Op: "blind", N: []int64{1 + int64(r.Intn(6)), int64(r.PickInt(7, 7, 11)), int64(r.Uint64() >> 1), int64(r.PickInt(32, 32, 33, 64, 100)),
-				int64(zones[r.Intn(len(zones))]), ua, int64(r.PickInt(0, 0, 999999999)), int64(zones[r.Intn(len(zones))]), ub, int64(r.PickInt(0, 0, 1))}})
+				int64(zones[r.Intn(len(zones))]), ua, int64(r.PickInt(0, 0, 999999999)), int64(zones[r.Intn(len(zones))]), ub, int64(r.PickInt(0, 0, 1)),
+				int64(r.PickInt(4, 4, 0)), int64(r.PickInt(0, 0, 0, 3, 9)), int64(r.PickInt(0, 0, 1, 2)), int64(zones[r.Intn(len(zones))])}})
 		}
 	}
 	if tier == "thorough" && nct > 0 && r.Chance(1, 25) {
@@ -466,7 +467,13 @@ func dayString(unix int64) string {
 func blind(t *testing.T, o *engine.Outcome, idx int, op *engine.Op) {
 	identSeed, sig := uint64(op.N[0]), int(op.N[1])
 	secret := refmodel.Expand(uint64(op.N[2]), "blind-secret", int(op.N[3]))
-	id := refmodel.NewIdentity(identSeed, sig, refmodel.EncX25519, "key", 0)
+	crypto, excess, dateMode, argZone := refmodel.EncX25519, 0, 0, 0
+	if len(op.N) >= 14 {
+		crypto, excess, dateMode, argZone = int(op.N[10]), int(op.N[11]), int(op.N[12]), int(op.N[13])
+	}
+	// the destination varies too: ElGamal or X25519 encryption key (different
+	// padding lengths), key certificate with excess payload
+	id := refmodel.NewIdentity(identSeed, sig, crypto, "key", excess)
 	dest, _, err := destination.ReadDestination(append([]byte(nil), id.Bytes...))
 	if err != nil {
 		o.Probe("blind_destination_rejected")
@@ -495,6 +502,12 @@ func blind(t *testing.T, o *engine.Outcome, idx int, op *engine.Op) {
 				time.Sleep(time.Until(time.Unix(n.unix, n.ns)))
 				o.Guard("CreateBlindedDestination", func() {
 					now := time.Now() // the node's own reading, in its own zone
+					switch dateMode {
+					case 1: // the caller converts to some other zone before passing it on
+						now = now.In(time.FixedZone("arg", argZone))
+					case 2: // or strips the zone and passes UTC
+						now = now.UTC()
+					}
 					n.bd, n.err = encrypted_leaseset.CreateBlindedDestination(dest, secret, now)
 					if n.err == nil {
 						n.out, _ = n.bd.Bytes()
@@ -518,7 +531,7 @@ func blind(t *testing.T, o *engine.Outcome, idx int, op *engine.Op) {
 		}
 		// keeps encryption key, padding and certificate; different signing key
 		orig := id.Bytes
-		if len(n.out) != len(orig) || !bytes.Equal(n.out[:352], orig[:352]) || !bytes.Equal(n.out[384:], orig[384:]) {
+		if len(n.out) != len(orig) || len(orig) < 384 || !bytes.Equal(n.out[:352], orig[:352]) || !bytes.Equal(n.out[384:], orig[384:]) {
 			o.Violate("C16/blinding-changes-more-than-the-signing-key", "op %d node %d: encryption key, padding or certificate differ from the original destination", idx, ni)
 		}
 		if len(n.out) >= 384 && bytes.Equal(n.out[352:384], orig[352:384]) {
